@@ -24,7 +24,7 @@ BUDGET_S = {'quick': 60.0, 'thorough': 1500.0}
 RULE = ('one run = one seeded history (5-50 steps) over two maps: creation of entities / solids / sides / prisms / visgroups / '
         'groups with desired IDs from {-5..0, small positives, duplicates of live IDs, huge}, copy() within and across '
         'maps, add/remove/re-add of entities and brushes, nodeid edits, fixup set/delete/construct/copy, export+parse, '
-        'parsing generated documents with duplicated/zero/negative/missing IDs, and heap events (drop a pool reference, '
+        'parsing generated documents with duplicated/zero/negative/missing IDs, collapsing generated instance maps (IDs numbered from 1, so colliding) into the map, and heap events (drop a pool reference, '
         'collect) with a seeded GC policy. The invariant (per kind: IDs of live objects pairwise distinct and positive) '
         'is evaluated after every step. Non-trivial: >=1 ID released and >=1 allocated afterwards, or >=1 desired-ID '
         'collision. distinct = distinct event-log digest.')
@@ -39,6 +39,7 @@ ASSUMPTIONS = ['live = reachable from the VMF (entities+spawn, their solids and 
                '<= 99 fixups per entity (two-digit key)', 'CPython reference counting makes finalizers of acyclic garbage run at the drop step']
 
 DES = [-5, -1, -1, -1, 0, 1, 2, 3, 3, 7, 10 ** 6]
+_ENGINE_CACHE: dict = {}      # instancing's per-class FGD lookups; content depends only on the class name
 
 
 def gen(rng: Rng, tier: str, index: int) -> dict:
@@ -50,7 +51,7 @@ def gen(rng: Rng, tier: str, index: int) -> dict:
            ('copy_ent', 6), ('copy_solid', 4), ('copy_side', 3), ('remove_ent', 10), ('readd_ent', 5), ('remove_brush', 4),
            ('readd_brush', 2), ('drop', 10 if policy != 'never' else 0), ('collect', 3 if policy != 'never' else 0),
            ('nodeid', 6), ('del_nodeid', 2), ('fixup_set', 5), ('fixup_del', 3), ('fixup_init', 3), ('fixup_copy', 2),
-           ('export_parse', 2), ('parse_doc', 3)]
+           ('export_parse', 2), ('parse_doc', 3), ('collapse', 4)]
     ops = [(o, w) for o, w in ops if w and r.chance(0.8)] or [('ent', 1), ('remove_ent', 1), ('drop', 1)]
     for _ in range(n):
         op = r.wpick(ops)
@@ -90,6 +91,8 @@ def gen(rng: Rng, tier: str, index: int) -> dict:
             steps.append([op, m])
         elif op == 'parse_doc':
             steps.append([op, m, _gen_doc(r)])
+        elif op == 'collapse':
+            steps.append([op, m, _gen_template(r), r.pick([0, 1, 2]), r.chance(0.5)])
         if policy == 'eager' and op in ('remove_ent', 'remove_brush') and r.chance(0.7):
             steps.append(['drop', 'ent' if op == 'remove_ent' else 'solid', i])
     return {'steps': steps, 'policy': policy}
@@ -126,6 +129,41 @@ def _gen_doc(r: Rng) -> str:
         for _ in range(r.randrange(0, 3)):
             out.append(f'\t"replace{r.pick(["01", "01", "02", "00", "07"])}" "${r.pick("abcd")} val"\n')
         if r.chance(0.3):
+            out.append(solid('\t'))
+        out.append('}\n')
+    return ''.join(out)
+
+
+def _gen_template(r: Rng) -> str:
+    """A well-formed instance map (IDs unique inside the file, numbered from 1 like every file Hammer writes, so they
+    collide with the IDs already live in the map it is collapsed into)."""
+    ids = {'e': 0, 's': 0, 'f': 0}
+
+    def nxt(k):
+        ids[k] += 1
+        return ids[k]
+
+    def solid(ind):
+        s = f'{ind}solid\n{ind}{{\n{ind}\t"id" "{nxt("s")}"\n'
+        for _ in range(r.randrange(1, 3)):
+            s += (f'{ind}\tside\n{ind}\t{{\n{ind}\t\t"id" "{nxt("f")}"\n{ind}\t\t"plane" "(0 0 0) (1 0 0) (1 1 0)"\n'
+                  f'{ind}\t\t"material" "tools/toolsnodraw"\n{ind}\t\t"uaxis" "[1 0 0 0] 0.25"\n{ind}\t\t"vaxis" "[0 -1 0 0] 0.25"\n{ind}\t}}\n')
+        return s + f'{ind}}}\n'
+    out = ['versioninfo\n{\n\t"formatversion" "100"\n}\n']
+    out.append(f'world\n{{\n\t"id" "{nxt("e")}"\n\t"classname" "worldspawn"\n')
+    for _ in range(r.randrange(0, 3)):
+        out.append(solid('\t'))
+    out.append('}\n')
+    node = 0
+    for _ in range(r.randrange(0, 4)):
+        cls = r.pick(['info_node', 'info_target', 'func_detail', 'func_instance_parms'])
+        out.append(f'entity\n{{\n\t"id" "{nxt("e")}"\n\t"classname" "{cls}"\n\t"origin" "0 0 0"\n')
+        if cls == 'info_node':
+            node += 1
+            out.append(f'\t"nodeid" "{node}"\n')
+        if cls == 'info_target' and r.chance(0.5):
+            out.append('\t"targetname" "tgt"\n')
+        if cls == 'func_detail':
             out.append(solid('\t'))
         out.append('}\n')
     return ''.join(out)
@@ -442,6 +480,24 @@ def run(case: dict) -> Outcome:
                 new = None
                 if op == 'parse_doc':
                     out.nontrivial = True
+            elif op == 'collapse':
+                from srctools.instancing import InstanceFile, collapse_one
+                _, m, text, style, named = st
+                vmf = maps[m]
+                tmpl = VMF.parse(Keyvalues.parse(text), preserve_ids=True)
+                from srctools.instancing import Instance, FixupStyle
+                from srctools.math import Matrix, Angle
+                inst = Instance('inst' if named else '', 't.vmf', Vec(64, 0, 0), Matrix.from_angle(Angle(0, 90, 0)), FixupStyle(style), [], [])
+                before_e = {id(e) for e in vmf.entities}
+                collapse_one(vmf, inst, InstanceFile(tmpl), engine_cache=_ENGINE_CACHE)
+                for e in vmf.entities:
+                    if id(e) not in before_e:
+                        note('entity', m, e.id, 'collapse')
+                        origin[('fixup', id(e))] = 'collapse'
+                out.stats['collapses'] += 1
+                tmpl = inst = None
+                if released:
+                    alloc_after_release = True
         except Exception as exc:
             out.violate('op-raised', f'{op}|{type(exc).__name__}', f'step {si} {st} raised {exc!r}')
             out.event(si, op, 'raised', type(exc).__name__)
@@ -458,7 +514,7 @@ def run(case: dict) -> Outcome:
     for k, v in origin.items():
         if k[0] == 'hist' and len(v) > 1:
             out.states.add(f'{k[1]}:' + '>'.join(v[-3:]))
-    out.sample = {'policy': case['policy'], 'steps': [s if s[0] != 'parse_doc' else ['parse_doc', s[1], '<document>'] for s in case['steps'][:30]]}
+    out.sample = {'policy': case['policy'], 'steps': [s if s[0] not in ('parse_doc', 'collapse') else [s[0], s[1], '<document>'] + s[3:] for s in case['steps'][:30]]}
     # release everything the run created (between runs; outside the judged history)
     pool.clear()
     maps.clear()
@@ -474,6 +530,8 @@ def simplify(case: dict):
             ns = list(st)
             ns[1] = 0
             yield dict(case, steps=steps[:i] + [ns] + steps[i + 1:])
+        if st[0] == 'collapse' and (st[3] or st[4]):
+            yield dict(case, steps=steps[:i] + [[st[0], st[1], st[2], 0, False]] + steps[i + 1:])
         if st[0] == 'parse_doc':
             lines = st[2].split('\n')
             for k in range(len(lines)):
